@@ -73,7 +73,7 @@ def run(ctx):
     ctx.finish("model_checking", {
         "evaluations": summ[0]["runs"] + ntr,
         "distinct_nontrivial": len([c for c in cases if len(c["chain"]) >= 2]) * 3,
-        "rule": "every chain of <= %d stages over 8 stage programs enumerated by TLC from Chain.tla x 3 real chains (client Roundtrip, server message chain, server batch-item chain), 3 consecutive requests each; non-trivial = chains with >= 2 stages; plus %d requests run 16 at a time through shared chains and validated as traces" % (n, ntr),
+        "rule": "every chain of <= %d stages over 8 stage programs enumerated by TLC from Chain.tla x 3 real chains (client Roundtrip, server message chain, server batch-item chain; the server chains also with derived contexts that are already cancelled and under an already cancelled root context that stages detach), 3 consecutive requests each; non-trivial = chains with >= 2 stages; plus %d requests run 16 at a time through shared chains and validated as traces" % (n, ntr),
         "exhaustive": True,
         "cases_replayed_against_impl": summ[0]["runs"],
         "samples": cases[100:102] + log[1:8],
